@@ -10,14 +10,17 @@ export CARGO_TARGET_DIR=$W/target
 demos=$(grep -E "^\+\s*(async )?fn [a-z0-9_]+\(" $O/demo.diff | sed -E 's/.*fn ([a-z0-9_]+)\(.*/\1/' | sort -u | tr '\n' ' ')
 git apply $O/demo.diff || { echo "NOT-CONFIRMED demo does not apply"; exit 1; }
 cargo test --offline -p $CRATE --lib 2>&1 > $O/run_orig.log
-f0=$(grep -cE "^test [^ ]+( - should panic)? \.\.\. FAILED" $O/run_orig.log)
+orig=$(grep -E "^test [^ ]+( - should panic)? \.\.\. FAILED" $O/run_orig.log | sed -E 's/^test ([^ ]+) .*/\1/' | awk -F:: '{print $NF}' | sort -u | tr '\n' ' ')
 git apply $O/patch.diff || { echo "NOT-CONFIRMED patch does not apply on top of demo"; git checkout -- .; exit 1; }
 cargo test --offline -p $CRATE --lib 2>&1 > $O/run_mut.log
 failed=$(grep -E "^test [^ ]+( - should panic)? \.\.\. FAILED" $O/run_mut.log | sed -E 's/^test ([^ ]+) .*/\1/' | awk -F:: '{print $NF}' | sort -u | tr '\n' ' ')
-git checkout -- . ; git clean -fdq -e out -e target
+git checkout -- . ; git clean -fdq -e out -e target -e BRIEF.txt
+# tests failing on the unmodified tree too (sandbox-dependent: network, sockets) are not counted
+new=""
+for f in $failed; do echo " $orig " | grep -q " $f " || new="$new $f"; done
 ok=1
-[ "$f0" = "0" ] || ok=0
-[ -n "$failed" ] || ok=0
-for f in $failed; do echo " $demos " | grep -q " $f " || ok=0; done
-echo "demos: $demos | failed on original: $f0 | failed with change: $failed"
+[ -n "$new" ] || ok=0
+for f in $new; do echo " $demos " | grep -q " $f " || ok=0; done
+for d in $demos; do echo " $orig " | grep -q " $d " && ok=0; done
+echo "demos: $demos | failing on the unmodified tree (+demo): $orig | additionally failing with the change:$new"
 if [ $ok = 1 ]; then echo "CONFIRMED $ID m$K"; else echo "NOT-CONFIRMED $ID m$K"; fi
